@@ -71,6 +71,49 @@ var c07Known = []string{
 	"SELECT * FROM l.lines x", "SELECT text FROM `l.lines?separator=ab` x", "SELECT number FROM `l.lines?separator=` x",
 }
 
+// files whose rows change shape AFTER the 100-row schema preview: the executing datasources meet values the inferred
+// schema has no place for, in the parser workers' own goroutines (a panic there has no recover)
+var c07DriftJSON = []string{
+	`{"id": 200, "tags": ["late"], "o": {}, "v": 1, "n": null, "l": [1], "nest": {"a": []}, "s": "x"}`,
+	`{"id": 200, "tags": [[]], "o": {}, "v": 1, "n": null, "l": [1], "nest": {"a": []}, "s": "x"}`,
+	`{"id": 200, "tags": [], "o": {"k": 1}, "v": 1, "n": null, "l": [1], "nest": {"a": []}, "s": "x"}`,
+	`{"id": 200, "tags": [], "o": {}, "v": "str", "n": null, "l": [1], "nest": {"a": []}, "s": "x"}`,
+	`{"id": 200, "tags": [], "o": {}, "v": 1.5, "n": 5, "l": ["s"], "nest": {"a": []}, "s": "x"}`,
+	`{"id": 200, "tags": [], "o": {}, "v": 1, "n": {"z": 1}, "l": [[1]], "nest": {"a": []}, "s": "x"}`,
+	`{"id": 200, "tags": [], "o": {}, "v": 1, "n": [1], "l": [1], "nest": {"a": [1]}, "s": "x"}`,
+	`{"id": 200, "tags": [], "o": {}, "v": 1, "n": null, "l": [1], "nest": {"a": {"b": 1}}, "s": "x"}`,
+	`{"id": 200, "tags": [], "o": {}, "v": 1, "n": null, "l": [1], "nest": null, "s": null}`,
+	`{"id": 200}`,
+	`{}`,
+	`{"id": null, "tags": null, "o": null, "v": null, "n": null, "l": null, "nest": null, "s": null, "extra": [1, {"q": []}]}`,
+	`{"id": 200, "tags": {}, "o": [], "v": [], "n": null, "l": {}, "nest": [], "s": 7}`,
+	`{"id": 9223372036854775808, "tags": [], "o": {}, "v": -9223372036854775809, "n": 1e400, "l": [1e19], "nest": {"a": []}, "s": "x"}`,
+	`[1, 2]`,
+	`"str"`,
+}
+
+var c07DriftCSV = []string{"200,1.5,x,true", "200,x,x,x", "200,1", "200,1,x,true,extra", ",,,", "9223372036854775808,1,x,true", "200,1,\"q\nr\",true", "200,NaN,x,tRuE", "\"200"}
+
+func c07DriftFiles() map[string]string {
+	files := map[string]string{}
+	var base strings.Builder
+	for i := 0; i < 101; i++ {
+		fmt.Fprintf(&base, `{"id": %d, "tags": [], "o": {}, "v": 1, "n": null, "l": [1], "nest": {"a": []}, "s": "x"}`+"\n", i)
+	}
+	for k, late := range c07DriftJSON {
+		files[fmt.Sprintf("drift%d.json", k)] = base.String() + late + "\n" + `{"id": 201, "tags": [], "o": {}, "v": 1, "n": null, "l": [1], "nest": {"a": []}, "s": "x"}` + "\n"
+	}
+	var cb strings.Builder
+	cb.WriteString("id,a,s,b\n")
+	for i := 0; i < 101; i++ {
+		fmt.Fprintf(&cb, "%d,1,x,true\n", i)
+	}
+	for k, late := range c07DriftCSV {
+		files[fmt.Sprintf("drift%d.csv", k)] = cb.String() + late + "\n201,1,x,true\n"
+	}
+	return files
+}
+
 var identRe = regexp.MustCompile(`^[a-z_][a-z0-9_]*$`)
 
 func genC07(g *Gen, tier string, w *bufio.Writer) {
@@ -89,6 +132,19 @@ func genC07(g *Gen, tier string, w *bufio.Writer) {
 		emit(q)
 		for _, m := range []string{"csv", "json", "batch_table"} {
 			fmt.Fprintf(w, "fuzz %s 1 0 SQL %s\n", m, hex.EncodeToString([]byte(q)))
+		}
+	}
+	for k := range c07DriftJSON {
+		for _, q := range []string{"SELECT * FROM drift%d.json d", "SELECT id, tags, o, v, n, l, nest, s FROM drift%d.json d", "SELECT COUNT(*) FROM drift%d.json d",
+			"SELECT tags[0], o->k, v + 1, l[0], nest->a, upper(s) FROM drift%d.json d", "SELECT id FROM drift%d.json d ORDER BY id DESC LIMIT 2"} {
+			for _, m := range []string{"csv", "json"} {
+				fmt.Fprintf(w, "fuzz %s 1 0 SQL %s\n", m, hex.EncodeToString([]byte(fmt.Sprintf(q, k))))
+			}
+		}
+	}
+	for k := range c07DriftCSV {
+		for _, q := range []string{"SELECT * FROM drift%d.csv d", "SELECT a + 1, upper(s), NOT b FROM drift%d.csv d", "SELECT COUNT(*) FROM drift%d.csv d"} {
+			fmt.Fprintf(w, "fuzz %s 1 0 SQL %s\n", Pick(g, []string{"csv", "json"}), hex.EncodeToString([]byte(fmt.Sprintf(q, k))))
 		}
 	}
 	// every named function × edge arguments (columns carry the edge values at run time; literals too)
@@ -243,6 +299,11 @@ func driveFuzz(toks []string) string {
 	files := map[string]string{
 		"t.csv": c07CSV, "j.json": c07JSON, "l.lines": "ab\ncabd\n\nxaby\n", "dup.csv": "a,a,b\n1,2,3\n", "ragged.csv": "a,b\n1\n1,2,3\n",
 		"empty.csv": "", "empty.json": "", "bad.json": "{\"a\": 1}\n[1,2]\n{\"a\": {\"b\": 2}}\nnull\n",
+	}
+	if strings.Contains(sql, "drift") {
+		for n, c := range c07DriftFiles() {
+			files[n] = c
+		}
 	}
 	for n, c := range files {
 		os.WriteFile(filepath.Join(dir, n), []byte(c), 0o644)
